@@ -190,6 +190,63 @@ def run_chain(rec, grammars, tag, alphabet, maxlen):
     b.cleanup()
 
 
+def deep_partial(rec, quick):
+    """The three outcomes for results as deep as the input: a deep match followed by junk raises
+    PartialParseError (with the match as partial_result and the right last_position), a deep match
+    alone returns, a deep mismatch raises ParseError -- nothing else, at the default recursion limit."""
+    import sys
+    n = 3000 if quick else 30000
+    grammars = {
+        'brackets': ('start = ["(", start?, ")"]', '(' * n + ')' * n),
+        'classes': ('start = N\nclass N { o: "("; k: N?; c: ")" }', '(' * n + ')' * n),
+        'operators': ('start = /[0-9]/ between { left: "+" }', '+'.join(['1'] * n)),
+        'prefixes': ('start = /[0-9]/ between { prefix: "-" }', '-' * n + '1'),
+    }
+    for tag, (desc, text) in sorted(grammars.items()):
+        r = observe.compile_grammar(desc)
+        if r[0] != 'ok':
+            rec.violation('deep-partial:grammar-error', 'Grammar()', dict(kind='deep-partial', grammar=tag), 'module', r)
+            continue
+        g = r[1]
+        old = sys.getrecursionlimit()
+        sys.setrecursionlimit(1000)
+        try:
+            for what, t, want in (('match', text, 'value'), ('match+junk', text + '!', 'partial'), ('mismatch', '!' + text, 'error')):
+                rec.case()
+                rec.count('deep_outcomes_checked')
+                rec.nontrivial(('deep-partial', tag, what))
+                try:
+                    v = g.parse(t)
+                    got = 'value'
+                except g.PartialParseError as e:
+                    got = 'partial' if e.last_position.index == len(text) else 'partial at %r' % (e.last_position.index,)
+                    v = e.partial_result
+                except g.ParseError:
+                    got, v = 'error', None
+                except BaseException as e:
+                    got, v = 'other:%s' % type(e).__name__, None
+                if got != want:
+                    rec.violation('deep-partial:%s->%s' % (want, got), 'three-outcome classifier on results as deep as the input (default recursion limit)',
+                                  dict(kind='deep-partial', grammar=tag, what=what, nesting=n, desc=desc), want, got)
+                # free the deep structure iteratively
+                stack = [v]
+                while stack:
+                    x = stack.pop()
+                    if isinstance(x, list):
+                        stack.extend(x)
+                        del x[:]
+                    elif hasattr(type(x), '_fields') and hasattr(x, '__dict__'):
+                        for f in type(x)._fields:
+                            stack.append(getattr(x, f, None))
+                            try:
+                                setattr(x, f, None)
+                            except Exception:
+                                pass
+                del v
+        finally:
+            sys.setrecursionlimit(old)
+
+
 def run_shard(rec):
     quick = rec.tier == 'quick'
     rec.deadline = time.time() + (300 if quick else 900)
@@ -202,6 +259,8 @@ def run_shard(rec):
                 alpha = 'a<>!'
             run_one(rec, G, ('curated', tag), alpha, 5 if quick else 6,
                     shiftable=('backtrack' not in tag))
+    if rec.shard == 3:
+        deep_partial(rec, quick)
     from . import c13
     for ctag, mode, levels in c13.curated_chains():
         idx += 1
@@ -238,6 +297,8 @@ def run_shard(rec):
 def replay(rec, rep):
     import ast
     case = rep['case']
+    if case.get('kind') == 'deep-partial':
+        return deep_partial(rec, rep.get('tier') != 'thorough')
     b = diff.rebuild_from_case(rec, case)
     if b is None:
         return
